@@ -207,6 +207,20 @@ def run(eng, ctx):
                     keys.append((st[3][0], e))
         if not keys:
             ctx.bad("C09.D2", mb.qualname, f"label lookup in scan of {fld}", expected="table.get(ID, N/A) under the bit test", found="no lookup", **loc)
+        # the table consulted: component 0 (satellite ID -> PRN) of the constellation's entry for the satellite scan, component 1 (signal ID -> codes) for the signal scan
+        want_comp = 0 if fld == sat_field else 1
+        for e in sc["effects"][:]:
+            for st in subterms(e.term):
+                if isinstance(st, tuple) and st and st[0] == "call" and st[2][0] == "attr" and st[2][2] == "get" and len(st[3]) >= 1:
+                    recv = st[2][1]
+                    comp = recv[2] if recv[0] == "proj" else (recv[2][1] if recv[0] == "idx" and is_const(recv[2]) else None)
+                    inner = recv[1] if recv[0] in ("proj", "idx") else None
+                    oktab = comp == want_comp and inner is not None and inner[0] == "idx" and inner[1][0] == "gval" and isinstance(inner[1][1].v, dict)
+                    ctx.check(bool(oktab), "C09.D2", mb.qualname, f"table consulted in the scan of {fld}", expected=f"component {want_comp} of the constellation's PRNSIGMAP entry", found=show(recv)[-60:], **eng.loc(mb, e.node))
+                    break
+            else:
+                continue
+            break
         for k, e in keys[:1]:
             K = to_poly(k, sym)
             ok = K is not None and (K + E) == Poly.const(W)
